@@ -277,6 +277,9 @@ def run(cfg, ops=None, rng=None):
                     raise Violation("GUARD", "guard", step, "guard", "forest inconsistent after %r" % (op,))
                 model.load(world.snapshot())
                 res.bump("mutations")
+                for f in world.fired:
+                    res.bump("fault_" + f[4])
+                    res.bump("fault@" + f[1])
                 h.update(repr((step, kind, status)).encode())
                 continue
             # a query, issued to both modules
